@@ -111,7 +111,53 @@ def toSpecIface : Iface → GV.Spec.Checks.Iface
 
 def okIf (p : Prop) [Decidable p] (r : String) : String := if p then r else "panic"
 
+/-! types of the grid language in prefix notation, tokens separated by `,`:
+    `i s e S M F` leaves, `A<n>` + type, `T<k>` + k × (`n|b|m`, type) -/
+open GV.Spec.GoTypes in
+mutual
+def parseTy : Nat → List String → Option (Ty × List String)
+  | 0, _ => none
+  | _+1, [] => none
+  | fuel+1, tok :: rest =>
+    if tok == "i" then some (.int, rest) else if tok == "s" then some (.str, rest)
+    else if tok == "e" then some (.iface, rest) else if tok == "S" then some (.slice, rest)
+    else if tok == "M" then some (.map, rest) else if tok == "F" then some (.func, rest)
+    else if tok.startsWith "A" then
+      match (tok.drop 1).toString.toNat?, parseTy fuel rest with
+      | some n, some (e, rest) => some (.arr n e, rest)
+      | _, _ => none
+    else if tok.startsWith "T" then
+      match (tok.drop 1).toString.toNat? with
+      | some k => (parseFields fuel k rest).map fun r => (.struct r.1, r.2)
+      | none => none
+    else none
+def parseFields : Nat → Nat → List String → Option (Fields × List String)
+  | 0, _, _ => none
+  | _+1, 0, rest => some (.nil, rest)
+  | fuel+1, k+1, kind :: rest =>
+    let fk : Option FieldKind := if kind == "n" then some .named else if kind == "b" then some .blank
+      else if kind == "m" then some .embedded else none
+    match fk, parseTy fuel rest with
+    | some fk, some (t, rest) => (parseFields fuel k rest).map fun r => (.cons fk t r.1, r.2)
+    | _, _ => none
+  | _+1, _+1, [] => none
+end
+
+def parseTyStr (s : String) : Option GV.Spec.GoTypes.Ty :=
+  let toks := s.splitOn ","
+  match parseTy (toks.length + 1) toks with
+  | some (t, []) => some t
+  | _ => none
+
 def handleChk : List String → String
+  | ["mcomparable", t] => match parseTyStr t with | some t => toString (tyComparable t) | none => "bad-op"
+  | ["scomparable", t] => match parseTyStr t with | some t => toString (GV.Spec.GoTypes.comparable t) | none => "bad-op"
+  | ["mifaceeqty", t] => match parseTyStr t with | some t => showOpt toString (ifaceEqSameType t) | none => "bad-op"
+  | ["sifaceeqty", t] => match parseTyStr t with
+    | some t => if GV.Spec.GoTypes.comparable t then "true" else "panic" | none => "bad-op"
+  | ["mkeyfor", t] => match parseTyStr t with | some t => showOpt (fun _ => "ok") (ifaceKeyFor t) | none => "bad-op"
+  | ["skeyfor", t] => match parseTyStr t with
+    | some t => if GV.Spec.GoTypes.comparable t then "ok" else "panic" | none => "bad-op"
   | ["mindex", len, i] => match len.toInt?, i.toInt? with
     | some len, some i => showOpt toString (indexCheck len i) | _, _ => "bad-op"
   | ["sindex", len, i] => match len.toInt?, i.toInt? with
